@@ -11,8 +11,21 @@ for src in map(pathlib.Path, sys.argv[1:]):
     shutil.copy(src / "patch.diff", dst / "patch.diff")
     if (src / "demo.py").exists():
         d = (src / "demo.py").read_text()
-        d = d.replace('"/tmp/seedtools"', 'str(__import__("pathlib").Path(__file__).resolve().parents[2] / "harness")')
-        d = d.replace("'/tmp/seedtools'", 'str(__import__("pathlib").Path(__file__).resolve().parents[2] / "harness")')
+        # the shim location is taken from the environment so that scripts the demo writes for child processes find it too
+        d = d.replace('"/tmp/seedtools"', '__import__("os").environ["VERIF_HARNESS"]')
+        d = d.replace("'/tmp/seedtools'", '__import__("os").environ["VERIF_HARNESS"]')
+        import ast as _ast
+        _line = 0
+        for _node in _ast.parse(d).body:
+            if isinstance(_node, _ast.Expr) and isinstance(getattr(_node, "value", None), _ast.Constant) and isinstance(_node.value.value, str) and _line == 0:
+                _line = _node.end_lineno; continue
+            if isinstance(_node, _ast.ImportFrom) and _node.module == "__future__":
+                _line = _node.end_lineno; continue
+            break
+        _ls = d.split("\n")
+        _ls.insert(_line, 'import os as _os, pathlib as _pl  # added on import into /verif: where the import shim lives (also for child processes)\n'
+                          '_os.environ.setdefault("VERIF_HARNESS", str(_pl.Path(__file__).resolve().parents[2] / "harness"))')
+        d = "\n".join(_ls)
         d = d.replace("import envboot", "import boot as envboot")
         d = d.replace("SEED_REPO", "VERIF_REPO")
         (dst / "demo.py").write_text(d)
